@@ -6,7 +6,11 @@ import Sio.Lemmas.ServerConn
 namespace Sio.Server
 open Sio.Rooms
 
-def discName : Str := "disconnect".toList
+def discName : Str := ['d', 'i', 's', 'c', 'o', 'n', 'n', 'e', 'c', 't']
+
+theorem discName_eq : "disconnect".toList = discName := by rfl
+
+theorem on_eq : "on_".toList = ['o', 'n', '_'] := by rfl
 
 /-- the handler slot of the `disconnect` event: `handlers[ns]['disconnect']` or `on_disconnect` -/
 def isDiscSlot : Slot → Bool
@@ -58,7 +62,7 @@ theorem resolve_not_disc {reg : Registry} {ns : Ns} {ev : J} {args : List J} {r 
     simp only [isDiscSlot, beq_iff_eq] at hc
     exact hev (getD_disc hc)
   have hstar : ∀ n, isDiscSlot (.fn n star) = false := fun n => by
-    simp only [isDiscSlot, star, discName]; decide
+    simp only [isDiscSlot]; decide
   unfold resolve at h
   dsimp only at h
   split at h
@@ -83,7 +87,7 @@ theorem resolve_not_disc {reg : Registry} {ns : Ns} {ev : J} {args : List J} {r 
       · cases h; intro slot a ht; cases ht
       · rename_i cns cargs _
         have hon : ∀ n, isDiscSlot (.cls n "on_".toList) = false := fun n => by
-          simp only [isDiscSlot, discName]; decide
+          simp only [isDiscSlot, on_eq]; decide
         have hm : ∀ n s, evStr ev = some s → isDiscSlot (.cls n ("on_".toList ++ s)) = false := by
           intro n s hs
           rw [Bool.eq_false_iff]
@@ -98,6 +102,485 @@ theorem resolve_not_disc {reg : Registry} {ns : Ns} {ev : J} {args : List J} {r 
         all_goals (obtain ⟨rfl, _⟩ := ht)
         all_goals first
           | exact hon _
-          | (rename_i s hs _; exact hm _ s hs)
+          | exact hm _ _ (by assumption)
+
+/-! ### outputs of the handlers, for an arbitrary predicate -/
+
+theorem sendTo_all (P : Out → Prop) (hs : ∀ t p, P (.send t p)) (s : Srv) (t : Option Eio)
+    (p : Packet) : ∀ o ∈ sendTo s t p, P o := by
+  intro o ho
+  obtain ⟨t', _, _, rfl⟩ := mem_sendTo ho
+  exact hs _ _
+
+/-- outputs of the disconnect path: packets, contained exceptions, and at most the invocation
+    of the handler `resolve` selects for `disconnect` with `sid, reason` -/
+theorem endSession_outs_gen (P : Out → Prop) (hs : ∀ t p, P (.send t p)) (he : ∀ e, P (.raised e))
+    (cfg : Cfg) (s : Srv) (sid : Sid) (ns : Ns) (reason : Str) (b : Bool)
+    (hi : ∀ r slot a, resolve cfg.reg ns (.str "disconnect".toList) [.str sid, .str reason] = .ok r →
+      r.target = some (slot, a) → P (.invoke slot a)) :
+    ∀ o ∈ (endSession cfg s sid ns reason b).2.1, P o := by
+  unfold endSession
+  dsimp only
+  have h0 : ∀ (s' : Srv) (t : Option Eio), ∀ o ∈ (if b = true then
+      sendTo s' t (pktDisconnect ns none) else []), P o := by
+    intro s' t o ho
+    split at ho
+    · exact sendTo_all P hs _ _ _ o ho
+    · cases ho
+  split
+  · simp only [all_append, all_cons, all_nil, and_true]
+    exact ⟨h0 _ _, he _⟩
+  · rename_i r hr
+    cases r <;> dsimp only
+    all_goals (try cases cfg.script.onDisconnect s.nDisc) <;> (try dsimp only)
+    all_goals simp only [all_append, all_cons, all_nil, and_true]
+    all_goals (try and_intros)
+    all_goals first
+      | exact h0 _ _
+      | exact he _
+      | trivial
+      | exact hi _ _ _ hr rfl
+
+theorem runHandler_outs_gen (P : Out → Prop) (hs : ∀ t p, P (.send t p)) (he : ∀ e, P (.raised e))
+    (cfg : Cfg) (s : Srv) (b : Bg)
+    (hi : ∀ r slot a, resolve cfg.reg b.ns b.first (.str b.sid :: b.rest) = .ok r →
+      r.target = some (slot, a) → P (.invoke slot a)) :
+    ∀ o ∈ (runHandler cfg s b).2, P o := by
+  have hack : ∀ (s' : Srv) (d : Data), ∀ o ∈ (match b.id with
+      | some i => sendTo s' (some b.eio) (mkOut ACK b.ns (some i) d.pack)
+      | none => []), P o := by
+    intro s' d o ho
+    split at ho
+    · exact sendTo_all P hs _ _ _ o ho
+    · cases ho
+  unfold runHandler
+  split
+  · simp only [all_cons, all_nil, and_true]; exact he _
+  · rename_i r hr
+    cases r <;> dsimp only
+    all_goals (try cases cfg.script.onEvent s.nEv) <;> (try dsimp only)
+    all_goals (try simp only [all_cons, all_nil, and_true])
+    all_goals (try and_intros)
+    all_goals first
+      | exact hack _ _
+      | exact he _
+      | exact hi _ _ _ hr rfl
+      | trivial
+
+theorem handleConnect_outs_gen (P : Out → Prop) (hs : ∀ t p, P (.send t p)) (he : ∀ e, P (.raised e))
+    (cfg : Cfg) (s : Srv) (t : Eio) (nsp : Option Str) (data : Option J)
+    (hi : ∀ r slot a auth, resolve cfg.reg (nsp.getD ['/']) (.str "connect".toList)
+        (.str (sidName s.nextSid) :: auth) = .ok r → r.target = some (slot, a) → P (.invoke slot a)) :
+    ∀ o ∈ (handleConnect cfg s t nsp data).2, P o := by
+  have hsend : ∀ (s' : Srv) (p : Packet), ∀ o ∈ sendTo s' (some t) p, P o :=
+    fun s' p => sendTo_all P hs _ _ _
+  unfold handleConnect
+  dsimp only
+  split
+  · exact hsend _ _
+  · have h0 : ∀ (s' : Srv), ∀ o ∈ (if cfg.alwaysConnect = true then
+        sendTo s' (some t) (pktConnect (nsp.getD ['/']) (sidName s.nextSid)) else []), P o := by
+      intro s' o ho
+      split at ho
+      · exact hsend _ _ o ho
+      · cases ho
+    have h1 : ∀ (s' : Srv) (p : Packet), ∀ o ∈ (if cfg.alwaysConnect = true then []
+        else sendTo s' (some t) p), P o := by
+      intro s' p o ho
+      split at ho
+      · cases ho
+      · exact hsend _ _ o ho
+    split
+    · simp only [all_append, all_cons, all_nil, and_true]
+      exact ⟨h0 _, he _⟩
+    · split
+      · simp only [all_append, all_cons, all_nil, and_true]
+        exact ⟨h0 _, he _⟩
+      · rename_i r hr
+        cases r <;> dsimp only
+        all_goals (try cases cfg.script.onConnect s.nConn) <;> (try dsimp only)
+        all_goals (try split)
+        all_goals simp only [all_append, all_cons, all_nil, and_true]
+        all_goals and_intros
+        all_goals first
+          | exact h0 _
+          | exact h1 _ _
+          | exact hsend _ _
+          | exact he _
+          | trivial
+          | exact hi _ _ _ _ hr rfl
+
+/-! ### counting -/
+
+theorem discCount_eq_zero {sid : Sid} {outs : List Out}
+    (h : ∀ o ∈ outs, isDiscInvoke sid o = false) : discCount sid outs = 0 := by
+  unfold discCount
+  rw [List.countP_eq_zero]
+  intro o ho; simp [h o ho]
+
+theorem sidArg_tail (sid' sid : Sid) (reason : Str) (pre : List J) :
+    sidArg sid' (pre ++ [.str sid, .str reason]) = (sid == sid') := by
+  simp [sidArg, List.reverse_append]
+
+theorem endSession_shape (cfg : Cfg) (s : Srv) (sid : Sid) (ns : Ns) (reason : Str) (b : Bool) :
+    ∃ o1 o2, (endSession cfg s sid ns reason b).2.1 = o1 ++ o2 ∧
+      (∀ o ∈ o1, ∃ t p, o = .send t p) ∧
+      (o2 = [] ∨ o2 = [.raised .typeError] ∨
+        ∃ slot a, o2 = [.invoke slot a] ∨ o2 = [.invoke slot a, .raised .other]) := by
+  have h0 : ∀ (s' : Srv) (t : Option Eio), ∀ o ∈ (if b = true then
+      sendTo s' t (pktDisconnect ns none) else []), ∃ t p, o = .send t p := by
+    intro s' t o ho
+    split at ho
+    · obtain ⟨t', _, _, rfl⟩ := mem_sendTo ho; exact ⟨_, _, rfl⟩
+    · cases ho
+  unfold endSession
+  dsimp only
+  split
+  · exact ⟨_, _, rfl, h0 _ _, Or.inr (Or.inl rfl)⟩
+  · rename_i r hr
+    cases r <;> dsimp only
+    · cases cfg.script.onDisconnect s.nDisc
+      · exact ⟨_, _, rfl, h0 _ _, Or.inr (Or.inr ⟨_, _, Or.inl rfl⟩)⟩
+      · exact ⟨_, _, rfl, h0 _ _, Or.inr (Or.inr ⟨_, _, Or.inr rfl⟩)⟩
+    · cases cfg.script.onDisconnect s.nDisc
+      · exact ⟨_, _, rfl, h0 _ _, Or.inr (Or.inr ⟨_, _, Or.inl rfl⟩)⟩
+      · exact ⟨_, _, rfl, h0 _ _, Or.inr (Or.inr ⟨_, _, Or.inr rfl⟩)⟩
+    · exact ⟨_, _, rfl, h0 _ _, Or.inl rfl⟩
+    · exact ⟨_, _, rfl, h0 _ _, Or.inl rfl⟩
+
+/-- in the outputs of a disconnect path: at most one disconnect-handler invocation, and it is
+    for the session that is being ended -/
+theorem endSession_disc (cfg : Cfg) (s : Srv) (sid : Sid) (ns : Ns) (reason : Str) (b : Bool)
+    (sid' : Sid) :
+    discCount sid' (endSession cfg s sid ns reason b).2.1 ≤ 1 ∧
+    (sid' ≠ sid → discCount sid' (endSession cfg s sid ns reason b).2.1 = 0) := by
+  constructor
+  · obtain ⟨o1, o2, he, h1, h2⟩ := endSession_shape cfg s sid ns reason b
+    rw [he, discCount_append]
+    have z : discCount sid' o1 = 0 := by
+      apply discCount_eq_zero
+      intro o ho; obtain ⟨t, p, rfl⟩ := h1 o ho; rfl
+    rw [z, Nat.zero_add]
+    rcases h2 with rfl | rfl | ⟨slot, a, rfl | rfl⟩
+    · exact Nat.zero_le _
+    · exact Nat.zero_le _
+    · simp only [discCount, List.countP_cons, List.countP_nil]; split <;> omega
+    · simp only [discCount, List.countP_cons, List.countP_nil, isDiscInvoke]
+      by_cases hq : (isDiscSlot slot && sidArg sid' a) = true <;> simp [hq]
+  · intro hne
+    apply discCount_eq_zero
+    apply endSession_outs_gen (fun o => isDiscInvoke sid' o = false) (fun _ _ => rfl) (fun _ => rfl)
+    intro r slot a hr ht
+    have ha := resolve_args hr
+    cases r <;> simp only [Resolved.target, Option.some.injEq, Prod.mk.injEq, reduceCtorEq] at ht
+    all_goals obtain ⟨rfl, rfl⟩ := ht
+    all_goals obtain ⟨pre, rfl⟩ := ha
+    all_goals simp only [isDiscInvoke, sidArg_tail]
+    all_goals simp
+    all_goals exact fun _ h => hne h.symm
+
+/-! ### the potential argument -/
+
+/-- Over a piece of execution from `s` to `s'` with outputs `outs`: the disconnect handler of
+    `sidName k` runs at most once, not at all if the session was already dead, and if it runs the
+    session is dead afterwards; dead stays dead. -/
+structure Once (k : Nat) (s s' : Srv) (outs : List Out) : Prop where
+  dead0 : Dead k s → discCount (sidName k) outs = 0
+  le1 : discCount (sidName k) outs ≤ 1
+  dead1 : discCount (sidName k) outs = 1 → Dead k s'
+  mono : Dead k s → Dead k s'
+
+theorem Once.zero {k : Nat} {s s' : Srv} {outs : List Out}
+    (hz : discCount (sidName k) outs = 0) (hm : Dead k s → Dead k s') : Once k s s' outs :=
+  ⟨fun _ => hz, (by rw [hz]; exact Nat.zero_le _), (fun h => by rw [hz] at h; cases h), hm⟩
+
+theorem Once.refl (k : Nat) (s : Srv) : Once k s s [] := Once.zero rfl id
+
+theorem Once.trans {k : Nat} {a b c : Srv} {o1 o2 : List Out} (h1 : Once k a b o1)
+    (h2 : Once k b c o2) : Once k a c (o1 ++ o2) := by
+  refine ⟨?_, ?_, ?_, fun h => h2.mono (h1.mono h)⟩
+  · intro hd
+    rw [discCount_append, h1.dead0 hd, h2.dead0 (h1.mono hd)]
+  · rw [discCount_append]
+    have a1 := h1.le1
+    have a2 := h2.le1
+    by_cases hq : discCount (sidName k) o1 = 1
+    · have := h2.dead0 (h1.dead1 hq); omega
+    · omega
+  · rw [discCount_append]
+    intro hq
+    have a1 := h1.le1
+    by_cases hq1 : discCount (sidName k) o1 = 1
+    · exact h2.mono (h1.dead1 hq1)
+    · exact h2.dead1 (by omega)
+
+theorem dead_of_reach {k : Nat} {s s' : Srv} (r : Reach s s') (h : Dead k s) : Dead k s' :=
+  r.preserve (fun _ _ hw p h => Dead.prim hw p h) h
+
+theorem once_endSession {s : Srv} (h : WF s) (cfg : Cfg) {sid : Sid} {ns : Ns}
+    (hc : isConnected s sid ns = true) (reason : Str) (b : Bool) (k : Nat) :
+    Once k s (endSession cfg s sid ns reason b).1 (endSession cfg s sid ns reason b).2.1 := by
+  obtain ⟨t, ht⟩ := isConnected_eioOf hc
+  have hd := endSession_disc cfg s sid ns reason b (sidName k)
+  have hlive : sidLive s.rooms sid := ⟨ns, t, eioOf_some_mem ht⟩
+  refine ⟨?_, hd.1, ?_, dead_of_reach (Reach.endSession h cfg hc reason b)⟩
+  · intro hdead
+    apply hd.2
+    rintro rfl
+    exact hdead.2 hlive
+  · intro h1
+    have heq : sidName k = sid := by
+      by_cases hne : sidName k = sid
+      · exact hne
+      · rw [hd.2 hne] at h1; cases h1
+    obtain ⟨j, hj⟩ := endSession_state cfg s sid ns reason b
+    rw [hj]
+    subst heq
+    obtain ⟨k', hk', hs⟩ := h.sidAlloc _ (eioOf_some_mem ht)
+    simp only at hs
+    have := sidName_inj hs
+    subst this
+    exact ⟨hk', not_sidLive_disconnect h.toWF0 ht⟩
+
+theorem once_handleDisconnect {s : Srv} (h : WF s) (cfg : Cfg) (t : Eio) (ns : Ns) (reason : Str)
+    (k : Nat) :
+    Once k s (handleDisconnect cfg s t ns reason).1 (handleDisconnect cfg s t ns reason).2.1 := by
+  unfold handleDisconnect
+  split
+  · exact .refl k s
+  · split
+    · exact .refl k s
+    · rename_i hc
+      exact once_endSession h cfg (by simpa using hc) reason false k
+
+theorem connect_ne_disc : J.str "connect".toList ≠ J.str discName := by
+  intro h
+  injection h with h
+  exact absurd h (by decide)
+
+theorem once_handleConnect {s : Srv} (h : WF s) (cfg : Cfg) (t : Eio) (nsp : Option Str)
+    (data : Option J) (k : Nat) :
+    Once k s (handleConnect cfg s t nsp data).1 (handleConnect cfg s t nsp data).2 := by
+  refine Once.zero (discCount_eq_zero ?_) (dead_of_reach (Reach.handleConnect h cfg t nsp data))
+  apply handleConnect_outs_gen (fun o => isDiscInvoke (sidName k) o = false)
+    (fun _ _ => rfl) (fun _ => rfl)
+  intro r slot a auth hr ht
+  simp only [isDiscInvoke, resolve_not_disc hr connect_ne_disc slot a ht, Bool.false_and]
+
+theorem handleEvent_disc (cfg : Cfg) (s : Srv) (t : Eio) (nsp : Option Str) (id : Option Nat)
+    (data : Option J) (sid' : Sid)
+    (hev : ∀ first rest, splitEvent data = .ok (first, rest) → first ≠ .str discName) :
+    discCount sid' (handleEvent cfg s t nsp id data).2 = 0 := by
+  apply discCount_eq_zero
+  unfold handleEvent
+  dsimp only
+  split
+  · simp [isDiscInvoke]
+  · rename_i first rest hd
+    split
+    · simp
+    · split
+      · simp
+      · split
+        · simp
+        · apply runHandler_outs_gen (fun o => isDiscInvoke sid' o = false)
+            (fun _ _ => rfl) (fun _ => rfl)
+          intro r slot a hr ht
+          simp only [isDiscInvoke, resolve_not_disc hr (hev first rest hd) slot a ht,
+            Bool.false_and]
+
+theorem handleAck_disc (s : Srv) (t : Eio) (nsp : Option Str) (id : Option Nat) (data : Option J)
+    (sid' : Sid) : discCount sid' (handleAck s t nsp id data).2 = 0 := by
+  apply discCount_eq_zero
+  intro o ho
+  rcases handleAck_outs s t nsp id data o ho with ⟨e, rfl⟩ | ⟨_, _, n, args, _, _, _, _, rfl, _⟩ <;> rfl
+
+/-- the events this frame hands to a handler are not named "disconnect" (the property's domain:
+    "clients that emit events literally named connect / disconnect are outside") -/
+def EvOk (dec : Str → Except Err (Packet × Nat)) (s : Srv) (t : Eio) (v : J) : Prop :=
+  ∀ nsp id data s₁ first rest, CompletesEvent dec s t v nsp id data s₁ →
+    splitEvent data = .ok (first, rest) → first ≠ .str discName
+
+theorem once_handleFrame {dec : Str → Except Err (Packet × Nat)} {s : Srv} (h : WF s) (cfg : Cfg)
+    {t : Eio} {v : J} (hev : EvOk dec s t v) (k : Nat) :
+    Once k s (handleFrame dec cfg s t v).1 (handleFrame dec cfg s t v).2 := by
+  have hm : Dead k s → Dead k (handleFrame dec cfg s t v).1 :=
+    dead_of_reach (Reach.handleFrame h dec cfg t v)
+  have key : ∀ r, FrameCase dec cfg s t v r → r = handleFrame dec cfg s t v →
+      Once k s r.1 r.2 := by
+    intro r hfc hr
+    have hm' : Dead k s → Dead k r.1 := hr ▸ hm
+    cases hfc with
+    | tooMany _ _ => exact .zero rfl hm'
+    | reconErr _ _ _ _ => exact .zero rfl hm'
+    | binEvent hf h1 h2 h3 h4 =>
+      exact .zero (handleEvent_disc _ _ _ _ _ _ _
+        (fun first rest hd => hev _ _ _ _ first rest (.binary hf h1 h2 h3 h4) hd)) hm'
+    | binAck _ _ _ _ _ => exact .zero (handleAck_disc ..) hm'
+    | more _ _ _ => exact .zero rfl hm'
+    | undecodable _ _ => exact .zero rfl hm'
+    | packet hf hd =>
+      rename_i p natt
+      have hdc := dispatchCase cfg s t p natt
+      generalize dispatchPacket cfg s t p natt = r' at hdc hr hm'
+      cases hdc with
+      | connect _ => exact once_handleConnect h cfg t _ _ k
+      | disconnect _ => exact once_handleDisconnect h cfg t _ _ k
+      | event ht =>
+        exact .zero (handleEvent_disc _ _ _ _ _ _ _
+          (fun first rest hd' => hev _ _ _ _ first rest (.text hf hd ht) hd')) hm'
+      | ack _ => exact .zero (handleAck_disc ..) hm'
+      | binHeader _ => exact .zero rfl hm'
+      | other => exact .zero rfl hm'
+  exact key _ (frameCase dec cfg s t v) rfl
+
+theorem lostGo_outs_eq (cfg : Cfg) (t : Eio) (reason : Str) (s : Srv) (outs : List Out)
+    (nss : List Ns) :
+    handleLost.go cfg t reason s outs nss =
+      ((handleLost.go cfg t reason s [] nss).1, outs ++ (handleLost.go cfg t reason s [] nss).2) := by
+  induction nss generalizing s outs with
+  | nil => simp [handleLost.go]
+  | cons ns rest ih =>
+    unfold handleLost.go
+    rw [ih, ih (outs := [] ++ _)]
+    simp [List.append_assoc]
+
+theorem once_lostGo {s : Srv} (h : WF s) (cfg : Cfg) (t : Eio) (reason : Str) (nss : List Ns)
+    (k : Nat) :
+    Once k s (handleLost.go cfg t reason s [] nss).1 (handleLost.go cfg t reason s [] nss).2 := by
+  induction nss generalizing s with
+  | nil => exact .refl k s
+  | cons ns rest ih =>
+    unfold handleLost.go
+    rw [lostGo_outs_eq]
+    exact (once_handleDisconnect h cfg t ns reason k).trans
+      (by simpa using ih (h.handleDisconnect cfg t ns reason))
+
+theorem drain_outs_eq (cfg : Cfg) (s : Srv) (outs : List Out) (bs : List Bg) :
+    step.drain cfg s outs bs =
+      ((step.drain cfg s [] bs).1, outs ++ (step.drain cfg s [] bs).2) := by
+  induction bs generalizing s outs with
+  | nil => simp [step.drain]
+  | cons b rest ih =>
+    unfold step.drain
+    rw [ih, ih (outs := [] ++ _)]
+    simp [List.append_assoc]
+
+theorem once_drain {s : Srv} (h : WF s) (cfg : Cfg) (bs : List Bg)
+    (hb : ∀ b ∈ bs, b.first ≠ .str discName) (k : Nat) :
+    Once k s (step.drain cfg s [] bs).1 (step.drain cfg s [] bs).2 := by
+  induction bs generalizing s with
+  | nil => exact .refl k s
+  | cons b rest ih =>
+    unfold step.drain
+    rw [drain_outs_eq]
+    have h1 : Once k s (runHandler cfg s b).1 (runHandler cfg s b).2 := by
+      refine .zero (discCount_eq_zero ?_) (dead_of_reach (Reach.of_core h (runHandler_core cfg s b)))
+      apply runHandler_outs_gen (fun o => isDiscInvoke (sidName k) o = false)
+        (fun _ _ => rfl) (fun _ => rfl)
+      intro r slot a hr ht
+      simp only [isDiscInvoke, resolve_not_disc hr (hb b List.mem_cons_self) slot a ht,
+        Bool.false_and]
+    exact h1.trans (by
+      simpa using ih (h.of_core (runHandler_core cfg s b))
+        (fun b' hb' => hb b' (List.mem_cons_of_mem _ hb')))
+
+/-- the histories of the property's domain: no handler is run for a client event named
+    "disconnect" — neither inline (`frame`) nor from the queue of background handlers (`settle`) -/
+inductive Dom (dec : Str → Except Err (Packet × Nat)) (cfg : Cfg) : Srv → List Input → Prop where
+  | nil {s : Srv} : Dom dec cfg s []
+  | frame {s : Srv} {t : Eio} {v : J} {is : List Input} : EvOk dec s t v →
+      Dom dec cfg (step dec cfg s (.frame t v)).1 is → Dom dec cfg s (.frame t v :: is)
+  | settle {s : Srv} {is : List Input} : (∀ b ∈ s.bg, b.first ≠ .str discName) →
+      Dom dec cfg (step dec cfg s .settle).1 is → Dom dec cfg s (.settle :: is)
+  | call {s : Srv} {ev : Str} {d : Data} {ns : Ns} {sid : Sid} {during is : List Input} :
+      (cfg.asyncHandlers = true → Dom dec cfg (callStart s ev d ns sid).1 during) →
+      Dom dec cfg (step dec cfg s (.call ev d ns sid during)).1 is →
+      Dom dec cfg s (.call ev d ns sid during :: is)
+  | other {s : Srv} {i : Input} {is : List Input} : (∀ t v, i ≠ .frame t v) → i ≠ .settle →
+      (∀ ev d ns sid during, i ≠ .call ev d ns sid during) →
+      Dom dec cfg (step dec cfg s i).1 is → Dom dec cfg s (i :: is)
+
+theorem once_other {dec : Str → Except Err (Packet × Nat)} {cfg : Cfg} {s : Srv} (h : WF s)
+    {i : Input} (h1 : ∀ t v, i ≠ .frame t v) (h2 : i ≠ .settle)
+    (h3 : ∀ ev d ns sid during, i ≠ .call ev d ns sid during) (k : Nat) :
+    Once k s (step dec cfg s i).1 (step dec cfg s i).2 := by
+  have hm : Dead k s → Dead k (step dec cfg s i).1 := dead_of_reach (Reach.step h dec cfg i)
+  have zero : (∀ o ∈ (step dec cfg s i).2, isDiscInvoke (sidName k) o = false) →
+      Once k s (step dec cfg s i).1 (step dec cfg s i).2 :=
+    fun hz => .zero (discCount_eq_zero hz) hm
+  cases i with
+  | eioConnect t => apply zero; rw [step]; simp
+  | frame t v => exact absurd rfl (h1 t v)
+  | eioLost t r =>
+    rw [step, handleLost_eq]
+    split
+    · exact .refl k s
+    · refine (once_lostGo h cfg t r _ k).trans (o2 := []) (.zero rfl ?_) |> (by simpa using ·)
+      intro hd; exact ⟨hd.1, hd.2⟩
+  | emit ev d ns to skip cb =>
+    apply zero; rw [step]
+    exact emit_outs _ _ _ _ _ _ _ (fun o => isDiscInvoke (sidName k) o = false) (fun _ _ => rfl)
+  | call ev d ns sid during => exact absurd rfl (h3 ev d ns sid during)
+  | apiDisconnect sid ns =>
+    rw [step]; unfold apiDisconnect
+    split
+    · exact .refl k s
+    · rename_i hc; exact once_endSession h cfg (by simpa using hc) _ true k
+  | enterRoom sid ns room => apply zero; rw [step]; split <;> simp [isDiscInvoke]
+  | leaveRoom sid ns room => apply zero; rw [step]; simp
+  | closeRoom ns room => apply zero; rw [step]; simp
+  | rooms sid ns => apply zero; rw [step]; simp [isDiscInvoke]
+  | getSession sid ns => apply zero; rw [step]; split <;> (try split) <;> simp [isDiscInvoke]
+  | saveSession sid ns v => apply zero; rw [step]; split <;> simp [isDiscInvoke]
+  | sessionBlock sid ns k' v => apply zero; rw [step]; split <;> simp [isDiscInvoke]
+  | settle => exact absurd rfl h2
+
+/-- **the disconnect handler of a session runs at most once over any history of the domain** -/
+theorem once_run {dec : Str → Except Err (Packet × Nat)} {cfg : Cfg} {s : Srv} {is : List Input}
+    (hd : Dom dec cfg s is) (h : WF s) (k : Nat) :
+    Once k s (run dec cfg s is).1 (run dec cfg s is).2 := by
+  induction hd with
+  | nil => rw [run_nil]; exact .refl k _
+  | @frame s t v is hev _ ih =>
+    rw [run_cons]
+    have h1 : Once k s (step dec cfg s (.frame t v)).1 (step dec cfg s (.frame t v)).2 := by
+      rw [step]; exact once_handleFrame h cfg hev k
+    exact h1.trans (ih (h.step dec cfg _))
+  | @settle s is hb _ ih =>
+    rw [run_cons]
+    have h1 : Once k s (step dec cfg s .settle).1 (step dec cfg s .settle).2 := by
+      rw [step]
+      have hw : WF { s with bg := [] } := h.of_core rfl
+      have := once_drain hw cfg s.bg hb k
+      exact ⟨fun hd => this.dead0 ⟨hd.1, hd.2⟩, this.le1, this.dead1, fun hd => this.mono ⟨hd.1, hd.2⟩⟩
+    exact h1.trans (ih (h.step dec cfg _))
+  | @call s ev d ns sid during is _ _ ih1 ih2 =>
+    rw [run_cons]
+    have h1 : Once k s (step dec cfg s (.call ev d ns sid during)).1
+        (step dec cfg s (.call ev d ns sid during)).2 := by
+      rw [step_call]
+      split
+      · exact .zero rfl id
+      · rename_i hc
+        have ha : cfg.asyncHandlers = true := by simpa using hc
+        have e1 : Once k s (callStart s ev d ns sid).1 (callStart s ev d ns sid).2 :=
+          .zero (discCount_eq_zero (emit_outs _ _ _ _ _ _ _
+            (fun o => isDiscInvoke (sidName k) o = false) (fun _ _ => rfl)))
+            (dead_of_reach (Reach.callStart h ev d ns sid))
+        have e2 := ih1 ha (h.callStart ev d ns sid)
+        have e3 : Once k (run dec cfg (callStart s ev d ns sid).1 during).1
+            (run dec cfg (callStart s ev d ns sid).1 during).1
+            [callOutcome (run dec cfg (callStart s ev d ns sid).1 during).1 s.nCall] := by
+          refine .zero (discCount_eq_zero ?_) id
+          intro o ho
+          simp only [List.mem_singleton] at ho
+          subst ho
+          unfold callOutcome; split <;> rfl
+        exact (e1.trans e2).trans e3
+    exact h1.trans (ih2 (h.step dec cfg _))
+  | @other s i is h1 h2 h3 _ ih =>
+    rw [run_cons]
+    exact (once_other h h1 h2 h3 k).trans (ih (h.step dec cfg _))
 
 end Sio.Server
